@@ -802,7 +802,7 @@ def _make_schema_loop(schema: set[CIFSchema]) -> Loop | None:
 
 
 def _quotes_for_string_value(value: str) -> str | None:
-    if '\n' in value:
+    if '\n' in value or '\r' in value:
         return ';'
     if "'" in value:
         if '"' in value:
@@ -810,11 +810,24 @@ def _quotes_for_string_value(value: str) -> str | None:
         return '"'
     if '"' in value:
         return "'"
-    if ' ' in value:
+    if ' ' in value or '\t' in value:
         return "'"
     if not value:
         return "'"  # so that empty strings are shown as ''
+    if _is_reserved_as_unquoted_string(value):
+        return "'"
     return None
+
+
+def _is_reserved_as_unquoted_string(value: str) -> bool:
+    # Unquoted strings must not begin with these characters and must not be
+    # one of the (case-insensitive) reserved words.
+    lower = value.lower()
+    return (
+        value[0] in '_#$[];'
+        or lower in ('loop_', 'stop_', 'global_')
+        or lower.startswith(('data_', 'save_'))
+    )
 
 
 def _encode_non_ascii(s: str) -> str:
